@@ -390,7 +390,7 @@ def run(ctx: C.Ctx):
             row = rows[c["row"]]
             v, detail = verdict(c, row, r)
             if v in ("differs", "dropped"):
-                ctx.fail(f"{c['row']}: repaired defect {f['id']} is back ({f.get('fixed', f['what'])}): {r['script'].splitlines()[-1]}",
+                ctx.fail(f"{c['row']}: the recorded witness of repaired defect {f['id']} fails again ({f.get('fixed', f['what'])}): {r['script'].splitlines()[-1]}",
                          c, {"python_binds": {p: fmt_slot(s) for p, s in python_binding(c, row, r).items()}},
                          {"differences": detail, "ir_fields": r.get("fields"), "script": r["script"], "shape": shape_class(c),
                           "finding": f["id"], "fixed_by": f.get("commit")}, key=("differs:" if v == "differs" else "dropped:") + c["row"])
